@@ -1207,8 +1207,12 @@ func (s *Stage) toWait(prevPath string, next *finalFile, howLong time.Duration) 
 	}
 	files, ok := s.wait[prevPath]
 	if ok {
-		for _, waiting := range files {
+		for i, waiting := range files {
 			if waiting.path == next.path {
+				// Same file: keep the object handed in now.  It may stand for a
+				// newer version than the one parked before, and only the one
+				// that is current in the cache gets finalized on release.
+				files[i] = next
 				return
 			}
 		}
